@@ -60,6 +60,26 @@ def collect(ctx, props, plans, design=(), report_deaths=False, me=1):
             do_replay(wit, "witness")
             all_behs += wit[:1]
     for p in plans:
+        if p.get("cover"):
+            consts = {"MaxSteps": p["steps"], "AvoidPanics": "TRUE" if p.get("avoid", True) else "FALSE",
+                      "AllowCrash": "TRUE" if p.get("crash") else "FALSE", "MaxH": p.get("maxh", 2), "MaxR": p.get("maxr", 1),
+                      "Universe": p.get("universe", "Small"), "RichEntrances": "TRUE" if p.get("rich") else "FALSE"}
+            behs, res, edges = run.edge_cover(consts, timeout=p.get("timeout", 1500))
+            total = len(behs)
+            if p.get("cap") and total > p["cap"]:
+                rnd = random.Random(ctx.seed)
+                rnd.shuffle(behs)
+                behs = behs[: p["cap"]]
+            design_cov.append({"universe": consts["Universe"], "steps": p["steps"], "crash": bool(p.get("crash")), "checked": ["edge cover"],
+                               "distinct_states": res.get("distinct", 0), "generated": res.get("states", 0), "design_counterexample": None,
+                               "state_event_pairs": edges, "maximal_behaviours": total, "replayed": len(behs)})
+            ctx.log("edge cover (universe %s, <= %d steps): %d (state, event) pairs, %d maximal behaviours, replaying %d on the real state machine"
+                    % (consts["Universe"], p["steps"], edges, total, len(behs)))
+            if not behs:
+                raise vlib.Inconclusive("edge cover produced no behaviours")
+            do_replay(behs, "cover")
+            all_behs += behs[:1]
+            continue
         behs = []
         want = p.get("min", 20)
         for sd in range(p.get("seeds", 1) + 6):
